@@ -1554,7 +1554,7 @@ def _format_typedef_body(td, indent, offset):
 def _format_docstring(doc, indent):
     if doc is None:
         return ''
-    lines = textwrap.dedent(doc).splitlines()
+    lines = textwrap.dedent(doc).split('\n')
     if lines:
         if lines[0].strip() == '':
             lines = lines[1:]
